@@ -80,6 +80,10 @@ func verifCfgVariant(cfg *progCfg) {
 		cfg.firstOps = []int{opAllocRawN}
 		cfg.ops = []int{opAllocRaw, opFreeNew}
 	}
+	if verifParam("opset", 0) == 3 {
+		// overwrite log only: overwrites and explicit flushes (overwrite pages are taken and released)
+		cfg.ops = []int{opOverwrite, opFlush, opPageFlush}
+	}
 	if verifParam("opset", 0) == 1 {
 		// allocation / free only (longer transactions stay affordable)
 		cfg.ops = []int{opAllocRaw, opAllocRawN, opFreeNew, opFree}
@@ -282,9 +286,7 @@ func VerifProgOverflow() {
 	// fill the data area completely (pages are allocated at the end of the file)
 	cfg.overflow = false
 	n := int(s.availNow())
-	if r := verifChoose(2); r == 1 {
-		n -= 1 // or leave one page
-	}
+	n -= verifChoose(verifParam("leave", 3)) // or leave one or two pages at the end of the file
 	s.allocRaw(n)
 	cfg.overflow = true
 	s.assertPartition("full file")
@@ -357,6 +359,19 @@ func VerifProgOverflow() {
 		verifAssert(txa.Rollback() == nil, "Rollback succeeds")
 		assertSnapEqual(snapA, snapOf(s.f), "after an aborted transaction on the file with overflow pages", true)
 		s.checkCommitted("after an aborted transaction on the file with overflow pages")
+	}
+	// whatever the allocator still counts as allocatable can be allocated, and is owned by nobody else
+	if av := int(s.availNow()); av > 0 {
+		txb, berr := s.f.Begin()
+		verifAssert(berr == nil, "Begin succeeds")
+		ps, aerr := txb.AllocN(av)
+		verifAssert(aerr == nil && len(ps) == av, "every page counted as allocatable can be allocated")
+		cfg.overflow = false
+		for _, p := range ps {
+			s.checkOwnership(s.m, p.ID())
+		}
+		cfg.overflow = true
+		verifAssert(txb.Rollback() == nil, "Rollback succeeds")
 	}
 	s.reopen()
 	s.checkCommitted("after reopen")
